@@ -39,6 +39,8 @@ Section Translate.
     match t, d with Some T, Some D => Nat.eqb T D | None, None => true | _, _ => false end.
   Definition sub_t (t d : option cls) : bool :=
     match t, d with Some T, Some D => sub C T D | _, _ => false end.
+  Definition sup_t (t d : option cls) : bool :=
+    match t, d with Some T, Some D => sub C D T | _, _ => false end.
   Definition dflt (d : option cls) : cls := match d with Some D => D | None => O end.
 
   (* infer_condition_between_attribute_and_assigned_value on the attribute node pa *)
@@ -54,7 +56,7 @@ Section Translate.
   (* AttributeAssignment.resolve up to the nested conditions: the node the nested match is resolved on,
      the HasType condition if any *)
   Definition type_filter (oc : cls) (a : nat) (t : option cls) : bool :=
-    let d := f_type C oc a in type_filter_needed (is_some d) (is_some t) (same_t t d) (sub_t t d).
+    let d := f_type C oc a in type_filter_needed (is_some d) (is_some t) (same_t t d) (sub_t t d) (sup_t t d).
   Definition nested_var (oc : cls) (p : path) (a : nat) (t : option cls) (kw : bool) : path :=
     if resolve_flatten (f_iter C oc a) kw (type_filter oc a t) then PFlat (PAttr p a) else PAttr p a.
   Definition nested_filter (oc : cls) (p : path) (a : nat) (t : option cls) (kw : bool) : list tcond :=
